@@ -54,6 +54,7 @@ def canceller_ok(S, d, cls):
 
 
 class LockBase(Contract):
+    replay_decides = False  # the granted callback is a havoc'ing call-out (re-entrant application code): not an input
     prop = "C06"
     module = M
     differential = False
@@ -122,7 +123,8 @@ class LockRelease(LockBase):
             return None
         return band(len(grants(S)) == 0, S.new.p.locked is False, L(S.new.p.waiting) == 0)
 
-    ensures = dict(oldest_waiter_granted=_handover, freed_when_nobody_waits=_freed)
+    ensures = dict(oldest_waiter_granted=_handover, freed_when_nobody_waits=_freed,
+                   nothing_written_after_the_grant=lambda S: unchanged_since_last_callout(S, "p", ("locked", "waiting")))
     canaries = [("d = self.waiting.pop(0)", "d = self.waiting.pop()", "oldest_waiter_granted"),
                 ("self.locked = True", "self.locked = False", "oldest_waiter_granted")]
 
@@ -160,6 +162,7 @@ class LockCancel(CancelBase, LockBase):
 
 
 class SemBase(Contract):
+    replay_decides = False  # the granted callback is a havoc'ing call-out (re-entrant application code): not an input
     prop = "C06"
     module = M
     differential = False
@@ -235,8 +238,16 @@ class SemRelease(SemBase):
         token_returned_when_nobody_waits=lambda S: None if (S.exc or L(S.old.p.waiting) > 0) else band(
             len(grants(S)) == 0, S.new.p.tokens == S.old.p.tokens + 1),
         limit_unchanged=lambda S: S.new.p.limit == S.old.p.limit,
+        # granting a waiter runs application code that may acquire / release again: release() must have done all of its
+        # own bookkeeping before, and write nothing afterwards (seeded change C06-3: a token count stored after the grant)
+        nothing_written_after_the_grant=lambda S: None if not (S.ghost.get("$after_callout")) else band(
+            S.new.p.tokens == S.ghost["$after_callout"][-1][1].p.tokens,
+            veq(S.new.p.waiting, S.ghost["$after_callout"][-1][1].p.waiting)),
     )
     canaries = [("            self.tokens = self.tokens - 1\n            d = self.waiting.pop(0)", "            d = self.waiting.pop(0)", "capacity_equation"),
+                ("        self.tokens = self.tokens + 1\n        if self.waiting:\n            # someone is waiting to acquire token\n            self.tokens = self.tokens - 1\n            d = self.waiting.pop(0)\n            d.callback(self)",
+                 "        tokens = self.tokens + 1\n        if self.waiting:\n            tokens = tokens - 1\n            d = self.waiting.pop(0)\n            d.callback(self)\n        self.tokens = tokens",
+                 "nothing_written_after_the_grant"),
                 ("d = self.waiting.pop(0)", "d = self.waiting.pop()", "oldest_waiter_granted")]
 
 
